@@ -201,6 +201,9 @@ class Formatter(FormatterInterface):
         b = self(r.body).split("\n")
         for line in b:
             output += f"    {line}\n"
+        # A Python block needs at least one statement; comments do not count
+        if all(not line.strip() or line.strip().startswith("#") for line in b):
+            output += "    pass\n"
         return output
 
     @__call__.register
